@@ -1,10 +1,10 @@
+/-
+  C12 — NUNIQ arithmetic: the standard decoder inverts `4^(d+1) + p` on valid pixels.  Core Lean only.
+-/
+import Aegean.Spec.C12
+
 namespace Aegean.Proofs.C12
-
-/-- order of a NUNIQ number: ⌊log2(u/4)⌋ / 2 -/
-def orderOf (u : Nat) : Nat := Nat.log2 (u / 4) / 2
-
-/-- decode a NUNIQ number into (order, pixel index) -/
-def decode (u : Nat) : Nat × Nat := (orderOf u, u - 4 * 4 ^ orderOf u)
+open Aegean.Spec.C12
 
 /-- `4 ^ d` as a power of two -/
 theorem four_pow (d : Nat) : 4 ^ d = 2 ^ (2 * d) := by
